@@ -2549,7 +2549,10 @@ impl Connection {
                 src_cid: rem_cid, ..
             } => {
                 if self.side.is_server() {
-                    return Err(TransportError::PROTOCOL_VIOLATION("client sent Retry").into());
+                    // Retry packets are not authenticated towards a server: anybody who knows
+                    // the connection IDs can send one, so it must not affect the connection
+                    trace!("discarding Retry sent to a server");
+                    return Ok(());
                 }
 
                 if self.total_authed_packets > 1
